@@ -6,6 +6,8 @@
 //	-mode unit   claims, X.509 and SSH modifier+validator chains built from the hook constructors
 //	-mode e2e    real embedded Authority with real JWK / X5C provisioners and tokens: Authorize, Sign,
 //	             Renew, SignSSH, RenewSSH, RekeySSH (SoftCAS and SSH signers included)
+//	-mode acme   real acme/api handlers (new-order … finalize) on a real authority: order date defaulting
+//	             and Finalize's pass-through of the order's dates
 //	-mode prop   oracle: the property predicate itself evaluated on the implementation's output
 //	             (third column = expected "ok")
 package main
@@ -54,9 +56,8 @@ func emit(o *c.Out, k *Case) {
 			o.Case(li[0]+caseField(k), li[1])
 		}
 	case k.ACME != nil:
-		line, impl := k.ACME.run()
-		if line != "" {
-			o.Case(line+caseField(k), impl)
+		for _, li := range k.ACME.runAll() {
+			o.Case(li[0]+caseField(k), li[1])
 		}
 	}
 }
@@ -77,7 +78,7 @@ func main() {
 	n := flag.Int("n", 2000, "number of generated cases")
 	out := flag.String("out", "", "output file (input<TAB>impl)")
 	replay := flag.String("replay", "", "file of model input lines (case=… field) to re-run instead of generating")
-	flag.StringVar(&mode, "mode", "unit", "unit | e2e | prop")
+	flag.StringVar(&mode, "mode", "unit", "unit | e2e | acme | prop")
 	flag.Parse()
 	o, err := c.NewOut(*out)
 	if err != nil {
